@@ -259,7 +259,13 @@ func runC17(c *explore.Ctx) {
 		scope := "TREE-LARGE"
 		var idx int64
 		ts := trees(0, 3)
-		for _, n := range []int{1023, 1024, 2047} {
+		// the term is "x", or the empty term (the first term of its field: whatever is set up "for the
+		// next term" when a field begins meets a term that equals the initial value of "previous term")
+		for _, nt := range []struct {
+			n int
+			t string
+		}{{1023, "x"}, {1024, "x"}, {2047, "x"}, {1023, ""}, {2047, ""}, {2100, ""}} {
+			n, tname := nt.n, nt.t
 			for pos := 0; pos < 3; pos++ { // where the large leaf stands
 				for dropKind := 0; dropKind < 3; dropKind++ {
 					my := idx
@@ -267,19 +273,19 @@ func runC17(c *explore.Ctx) {
 					if !c.MineIdx(scope, my) || c.Expired() {
 						continue
 					}
-					cas := fmt.Sprintf("%s #%d n=%d large-leaf-at=%d drop=%d", scope, my, n, pos, dropKind)
-					big := gen.Large(n, 0, 1)
+					cas := fmt.Sprintf("%s #%d n=%d term=%q large-leaf-at=%d drop=%d", scope, my, n, tname, pos, dropKind)
+					big := renameTerm(gen.Large(n, 0, 1), "a", "x", tname)
 					for j := range big {
 						if j%97 == 0 {
 							big[j] = append(gen.Doc{gen.IDField("L", j)}, big[j]...)
 						}
 					}
-					one := []model.Doc{{gen.IDField("o", 0), {N: "a", Len: 1, Terms: []model.Term{{T: "x", Freq: 1}}}}}
+					one := []model.Doc{{gen.IDField("o", 0), {N: "a", Len: 1, Terms: []model.Term{{T: tname, Freq: 1}}}}}
 					// the third leaf carries another term only (dropKind 1: x is 1-hit in merge(one,two) and its
 					// document is deleted there) or x as well
 					other := "y"
 					if dropKind != 1 {
-						other = "x"
+						other = tname
 					}
 					two := []model.Doc{{gen.IDField("t", 0), {N: "b", Len: 1, Terms: []model.Term{{T: "x", Freq: 1}}}}, {gen.IDField("t", 1), {N: "a", Len: 1, Terms: []model.Term{{T: other, Freq: 1}}}}}
 					small := [][]model.Doc{one, two}
